@@ -124,11 +124,14 @@ static void gen_just_ops(Rng &r, std::vector<Op> &ops, unsigned n, i64 seg) {
 static Plan gen_just(u64 seed) {
     Rng r(seed); Plan p; p.mode = "just"; p.seed = seed;
     std::string font = gen_font(r);
+    bool synth = r.chance(1, 4);     // synthesised rule program: attachments, line-end contextuals, justification levels
+    if (synth) { static const char *bases[] = {"grtest1gr", "general", "PigLatinBenchmark_v3", "underflow", "Padauk", "charis_r_gr"}; font = bases[r.below(6)]; }
     Op mf = gen_make_face(r, font, 30, true, false);
+    if (synth) { Fault f; f.kind = "OVR_SILFPROG"; f.tag = "Silf"; synth_program(r.next(), f.a); mf.faults.push_back(f); }
     p.ops.push_back(mf);
     if (r.chance(1, 2)) p.ops.push_back(mk("make_font", {0, i64(16 * (4 + r.below(100)))}));
     Op o; o.kind = "make_seg"; o.a = {0, r.chance(1, 2) ? 0 : -1, i64(1 << r.below(3)), i64(r.below(8)), 0, -1};
-    o.text = gen_text(r, font, g_tier ? 120 : 40, r.chance(1, 4));
+    o.text = synth ? synth_text(r, 30) : gen_text(r, font, g_tier ? 120 : 40, r.chance(1, 4));
     if (o.text.size() > 3 && r.chance(1, 2)) for (size_t k = 3 + r.below(5); k < o.text.size(); k += 3 + r.below(7)) o.text[k] = ' ';
     p.ops.push_back(o);
     gen_just_ops(r, p.ops, 1 + r.below(g_tier ? 12 : 8), 0);
